@@ -169,9 +169,9 @@ def validateLazy (T : ScopeTable) (d : Depth) (S : Schema) (D : Frame) : Validat
   match parseFrame S D with
   | .crash => .crash
   | .ok P pe =>
-    -- (the strict/ordered test is made by the filtering parser on the frame before filtering; it
-    -- only looks at declared labels, which filtering keeps, so testing the parsed frame is the same)
-    let es := pe ++ frameErrors T d S P
+    -- the strict/ordered test is made by the filtering parser with the column information collected
+    -- *before* `add_missing_columns` ran, i.e. on the labels of the input frame
+    let es := pe ++ strictOrderedErrors S D ++ coreCheckErrors T d S P
     if es.isEmpty then .ok P
     else if S.dropInvalid then
       -- every collected error must carry row-level failure cases
